@@ -20,7 +20,7 @@ TIERS = {"quick": dict(cap=220, hv=900, variants=2), "thorough": dict(cap=6000, 
 
 def xonsh_cases(run: Run, tier: str) -> list[dict]:
     out = []
-    for mod, fn in (("c05", "cases_for_c04"), ("c06", "cases_for_c04"), ("c07", "cases_for_c04"), ("c14", "cases_for_c04")):
+    for mod, fn in (("c10", "cases_for_c04"), ("c05", "cases_for_c04"), ("c06", "cases_for_c04"), ("c07", "cases_for_c04"), ("c14", "cases_for_c04")):
         try:
             m = __import__(f"harness.props.{mod}", fromlist=[fn])
             out += getattr(m, fn)(run, tier)
